@@ -255,6 +255,7 @@ func (p *Path) declHeap(t, name, now string) {
 	if srt == "" {
 		panic("unknown heap " + name)
 	}
+	p.fx.env.ensureHeapSort(name)
 	p.declare(t, srt)
 	switch {
 	case strings.HasPrefix(name, "Mem_"):
@@ -312,6 +313,7 @@ func (p *Path) setHeap(name, term string) {
 	p.fx.mayWrite[name] = true
 	v := p.fx.fresh(name)
 	p.emitted["heap:"+v] = true
+	p.fx.env.ensureHeapSort(name)
 	p.declare(v, heapSortTable[name])
 	p.assume(fmt.Sprintf("(= %s %s)", v, term))
 	p.st.heaps[name] = v
@@ -382,6 +384,14 @@ func (p *Path) outside(v ssa.Value) Val {
 			hn := p.fx.env.memHeap(ld.Type())
 			addr := p.val(ld.X).T
 			p.assume(fmt.Sprintf("(=> (and (<= (stamp %s) now_0) (not %s)) (= %s (select %s %s)))", addr, p.modCond(hn, addr), name, p.heapIn(&p.entry, hn), addr))
+		}
+		if ld, ok := instr.(*ssa.UnOp); ok && ld.Op == token.MUL {
+			// a load from a captured variable that is assigned exactly once (before the load) reads that value
+			if a, ok := ld.X.(*ssa.Alloc); ok {
+				if st := writeOnceStore(a); st != nil && instrBefore(st, ld) {
+					p.assume(fmt.Sprintf("(= %s %s)", name, p.val(st.Val).T))
+				}
+			}
 		}
 		if a, ok := v.(*ssa.Alloc); ok {
 			tag := "0"
@@ -670,6 +680,7 @@ func (p *Path) havocHeapRaw(name string) string {
 	p.fx.mayWrite[name] = true
 	v := p.fx.fresh(name)
 	p.emitted["heap:"+v] = true
+	p.fx.env.ensureHeapSort(name)
 	p.declare(v, heapSortTable[name])
 	p.st.heaps[name] = v
 	return v
@@ -760,4 +771,21 @@ func findLoopHeads(fn *ssa.Function) []*ssa.BasicBlock {
 		}
 	}
 	return sortedBlocks(heads)
+}
+
+// instrBefore: instruction a is executed before b on every path reaching b (same block and earlier, or a's block
+// strictly dominates b's).
+func instrBefore(a, b ssa.Instruction) bool {
+	if a.Block() == b.Block() {
+		for _, in := range a.Block().Instrs {
+			if in == a {
+				return true
+			}
+			if in == b {
+				return false
+			}
+		}
+		return false
+	}
+	return a.Block().Dominates(b.Block())
 }
